@@ -145,3 +145,65 @@ def template_coverage(expanded_texts):
         else:
             res["uncovered"].append(entry)
     return res
+
+
+# ------------------------------------------------------------------ diagnostic-site coverage (C18)
+
+DIAG_MACROS = {"emit_error", "abort", "emit_call_site_error", "abort_call_site"}
+DIAG_ALLOW = {
+    "Internal Error": "defensive: emit_dispatch_leg is never called for struct messages",
+    "Unexpected `self` argument": "not reachable from valid Rust syntax (a second receiver is a parse error before the macro runs)",
+}
+
+
+def diagnostic_sites():
+    """[(file, fn, line, message literal)] for every error diagnostic the generator can emit (emit_error!/abort!/syn::Error::new)"""
+    from . import ast as A
+    out = []
+    for rel, ast in grules.derive_asts().items():
+        for qn, fn in grules.all_fns(ast):
+            for n in A.find_all(fn, lambda n: isinstance(n, dict) and n.get("k") == "macro" and n.get("path", "").split("::")[-1] in DIAG_MACROS):
+                lits = [t["s"] for t in grules.flat_tokens(n["tt"]) if t["t"] == "lit" and t["s"].startswith('"')]
+                if lits:
+                    out.append((rel, qn, n["ln"], _unquote(lits[0])))
+            for n in A.find_all(fn, lambda n: isinstance(n, dict) and n.get("x") and n.get("k") == "call" and A.path_ids(n["func"]) and A.path_ids(n["func"])[-2:] == ["Error", "new"]):
+                if len(n["args"]) == 2:
+                    a = A.strip_expr(n["args"][1])
+                    if a["k"] == "lit" and a.get("lk") == "str":
+                        out.append((rel, qn, n["ln"], a["v"]))
+                    elif a["k"] == "path":
+                        # message held in a local `let error_msg = "..."`
+                        name = A.path_ids(a)[0]
+                        for s in A.find_all(fn, lambda m: isinstance(m, dict) and m.get("k") == "let" and m.get("pat", {}).get("name") == name and m.get("init")):
+                            i = A.strip_expr(s["init"])
+                            if i["k"] == "lit" and i.get("lk") == "str":
+                                out.append((rel, qn, n["ln"], i["v"]))
+    return out
+
+
+def _unquote(s):
+    try:
+        import ast as pyast
+        return pyast.literal_eval(s)
+    except Exception:
+        return s.strip('"')
+
+
+def diagnostic_coverage(observed_messages):
+    """which diagnostic sites of the generator are triggered by at least one must-fail witness (adequacy of the C18 witness set)"""
+    sites = diagnostic_sites()
+    res = {"sites": len(sites), "covered": 0, "uncovered": [], "allowlisted": []}
+    obs = [re.sub(r"\s+", " ", o) for o in observed_messages]
+    for rel, qn, ln, msg in sites:
+        head = re.sub(r"\s+", " ", msg.split("\n")[0]).strip()
+        # `{}` placeholders -> wildcard
+        pat = re.escape(head)
+        pat = re.sub(r"\\\{[^}]*\\\}", ".*", pat)
+        rx = re.compile(pat)
+        if any(rx.search(o) for o in obs):
+            res["covered"] += 1
+        elif any(k in head for k in DIAG_ALLOW):
+            res["allowlisted"].append({"file": rel, "fn": qn, "line": ln, "message": head, "reason": next(v for k, v in DIAG_ALLOW.items() if k in head)})
+        else:
+            res["uncovered"].append({"file": rel, "fn": qn, "line": ln, "message": head})
+    return res
